@@ -61,17 +61,31 @@ pub struct FrameLiveness {
 
 #[derive(Default)]
 struct FrameSt {
-    bcast: u32,
+    /// Current broadcast.
+    cur: u32,
     n: u32,
     ended: u32,
-    returned: bool,
-    zero: Option<u32>,
-    /// Address of the first atomic the broadcast's participants operated on
-    /// (its countdown): the shared state lives around it.
-    shared_addr: Option<usize>,
-    /// Workers that took a task of the current broadcast and have not yet
-    /// come back for the next one.
-    serving: [bool; dsim::MAX_THREADS],
+    /// Per broadcast: has the caller come back from it?
+    returned: Vec<bool>,
+    /// Per broadcast: seq at which its countdown reached zero.
+    zero: Vec<Option<u32>>,
+    /// Per broadcast: address of the first atomic its participants operated
+    /// on (its countdown): the shared state lives around it.
+    shared_addr: Vec<Option<usize>>,
+    /// Per worker: the broadcast whose task it took and from which it has
+    /// not yet come back for the next one.
+    serving: [Option<u32>; dsim::MAX_THREADS],
+}
+
+impl FrameSt {
+    fn grow(&mut self, j: u32) {
+        let len = j as usize + 1;
+        if self.returned.len() < len {
+            self.returned.resize(len, false);
+            self.zero.resize(len, None);
+            self.shared_addr.resize(len, None);
+        }
+    }
 }
 
 impl dsim::Monitor for FrameLiveness {
@@ -80,28 +94,37 @@ impl dsim::Monitor for FrameLiveness {
         let t = e.tid as usize;
         match e.kind {
             Ev::User(UserEv::BroadcastBegin { j, n }) => {
-                st.bcast = j;
+                st.grow(j);
+                st.cur = j;
                 st.n = n;
                 st.ended = 0;
-                st.returned = false;
-                st.zero = None;
-                st.shared_addr = None;
             }
-            Ev::User(UserEv::TaskBegin { .. }) if t != 0 => st.serving[t] = true,
-            Ev::User(UserEv::TaskEnd { .. } | UserEv::TaskPanic { .. }) => st.ended += 1,
-            Ev::Recv { .. } | Ev::RecvErr { .. } | Ev::Exit => st.serving[t] = false,
-            Ev::Atomic { op, new, addr, .. } if !st.returned => {
-                if st.shared_addr.is_none() {
-                    st.shared_addr = Some(addr);
-                }
-                if op == AtomOp::Rmw && new == 0 && t != 0 {
-                    st.zero = Some(e.seq);
+            Ev::User(UserEv::TaskBegin { j, .. }) if t != 0 => st.serving[t] = Some(j),
+            Ev::User(UserEv::TaskEnd { j, .. } | UserEv::TaskPanic { j, .. }) if j == st.cur => {
+                st.ended += 1
+            }
+            Ev::Recv { .. } | Ev::RecvErr { .. } | Ev::Exit => st.serving[t] = None,
+            Ev::Atomic { op, new, addr, .. } => {
+                // Attribute the operation to the broadcast its thread works for.
+                let j = if t == 0 { Some(st.cur) } else { st.serving[t] };
+                if let Some(j) = j {
+                    st.grow(j);
+                    let j = j as usize;
+                    if !st.returned[j] {
+                        if st.shared_addr[j].is_none() {
+                            st.shared_addr[j] = Some(addr);
+                        }
+                        if op == AtomOp::Rmw && new == 0 && t != 0 {
+                            st.zero[j] = Some(e.seq);
+                        }
+                    }
                 }
             }
             Ev::User(UserEv::BroadcastReturn { j }) => {
-                st.returned = true;
+                st.grow(j);
+                st.returned[j as usize] = true;
                 // Nothing else has run since the caller came back.
-                if st.ended < st.n + 1 {
+                if j == st.cur && st.ended < st.n + 1 {
                     return Some(format!(
                         "[returned_early] broadcast {j} (n={}) returned although {} of its {} task calls had neither returned nor panicked",
                         st.n,
@@ -117,19 +140,26 @@ impl dsim::Monitor for FrameLiveness {
 
     fn pre_touch(&self, tid: usize, addr: usize) -> Option<String> {
         let st = self.st.lock().unwrap();
-        if tid == 0 || !st.serving[tid] || !(st.returned || st.zero.is_some()) {
+        if tid == 0 {
             return None;
         }
-        let shared = st.shared_addr?;
-        if addr.abs_diff(shared) > 256 {
+        let j = st.serving[tid]? as usize;
+        let returned = *st.returned.get(j)?;
+        let zero = *st.zero.get(j)?;
+        if !(returned || zero.is_some()) {
+            return None;
+        }
+        // The shared state of broadcast j lives around its countdown; later
+        // broadcasts usually reuse the same frame.
+        let near = |a: Option<usize>| a.map_or(false, |a| addr.abs_diff(a) <= 256);
+        if !(near(st.shared_addr[j]) || near(st.shared_addr.get(st.cur as usize).copied().flatten())) {
             return None;
         }
         Some(format!(
-            "[touch_after_release] broadcast {}: worker thread {tid} is about to operate on the broadcast's shared state although {} (the caller's frame may be gone)",
-            st.bcast,
-            match st.zero {
-                Some(z) if !st.returned => format!("its countdown reached zero at seq {z}"),
-                _ => "the caller is already back from broadcast".to_string(),
+            "[touch_after_release] broadcast {j}: worker thread {tid} is about to operate on the broadcast's shared state although {} (the caller's frame may be gone)",
+            match zero {
+                Some(z) if !returned => format!("its countdown reached zero at seq {z}"),
+                _ => "the caller is already back from that broadcast".to_string(),
             }
         ))
     }
